@@ -45,6 +45,7 @@ type Contract struct {
 	Splits        []*Clause
 	Using         []*Clause
 	Inline        bool
+	Helper        bool
 	Trusted       string // non-empty: assumed contract (reason)
 	Aliasing      string // "none" disables alias partitions, "all" default
 	NIA           bool
@@ -402,6 +403,11 @@ func (db *SpecDB) loadFile(path string, pkgPath string, marker bool) error {
 				cur.NIA = true
 			case "inline":
 				cur.Inline = true
+			case "helper":
+				// a small unexported helper whose contract only serves its callers: if the function disappears
+				// (inlined by a refactoring) the contract is dropped with a note and the callers are verified
+				// against whatever replaced the call
+				cur.Helper = true
 			case "pure":
 				cur.Pure = true
 			case "noframe":
